@@ -33,7 +33,7 @@ var propertyScope = map[string]string{
 	"C04": "Decided: one write(2) per commit on the append path (no loop, no buffered writer); one commit per command; plan/compact commit by rename. Not decided: atomicity of a single large write(2) against SIGKILL at page granularity (a torn line is C03's business).",
 	"C05": "Decided: every observable field is read by compaction; payload literals complete; only live ids emitted; update events emitted whenever current differs from created; claim before state; results re-emitted from the end; compaction's commit is the atomic replace under the lock. Not decided: equality of the round trip for all histories (timestamps, idempotence) — value level.",
 	"C06": "Decided: every state event is dominated by the transition and claim-invariant validators on the recorded value and then recorded; claim/unclaim emissions are followed or preceded by the invariant check on every feasible success path and confined to non-epics; the five claim/state tables agree with the property's sets; no failure after commit; compaction re-emits state and claim so that the rewritten log replays to the same (state, claimant) pairs. Not decided: that the 6x6 table is the intended one beyond the documented rows.",
-	"C07": "Decided: every link emission is dominated by existence, self, kind and cycle checks on the emitted ids against the graph loaded in the same lock section, the in-memory graph is extended per accepted edge; replay guards tombstoned ids; plan edges are between ids minted in the callback. the cycle search never answers false from inside its loop and never reads mutable item state. Not decided: full correctness of the reachability search (that every path is explored); that unlink removes exactly one edge (value level).",
+	"C07": "Decided: every link emission is dominated by existence, self, kind and cycle checks on the emitted ids against the graph loaded in the same lock section, the in-memory graph is extended per accepted edge; replay guards tombstoned ids; plan edges are between ids minted in the callback; the cycle search never answers false from inside its loop and never reads mutable item state. Not decided: full correctness of the reachability search (that every path is explored); that unlink removes exactly one edge (value level).",
 	"C08": "Decided: the structure of isReady/isBlocked/isEpicComplete/areEpicDepsComplete (every return's dominating conditions against the definition), the satisfied-state sets of all four siblings, the claim's selection (kind, filter, element 0, oldest-first total comparator). Not decided: the truth table over all graphs as values.",
 	"C09": "Decided: eligibility sets and counters of the prune policy, commit behind apply, tombstones = reported plan, replay's tombstone guards and unconditional application, id generator consults live ids and tombstones, dry run is pure, compaction emits only live ids. Not decided: every later command sequence beyond these guards.",
 	"C10": "Decided: no error return after a commit inside any lock section; no error exit after a committing call in any command (other than reply I/O); one commit per command; every consumed update key is recorded; strict parse and validation before the first commit. Not decided: failures of the reply write itself (EPIPE) — inherent.",
@@ -41,10 +41,10 @@ var propertyScope = map[string]string{
 	"C12": "Decided: map-iteration order never reaches output/event order unsorted; read commands reach no file mutation; located parse errors; emitted event types = replayed types and all payload fields replayed; history only grows; no exit/panic in the library. Not decided: totality over arbitrary byte strings (no panic/hang) — value level.",
 	"C13": "Decided: list/show cannot reach the lock; rewrites are temp+rename; a command's lines appear with one write; the reader is one sequential scan tolerating a torn tail from the scanned bytes. Not decided: the full reader-start x writer-step schedule space.",
 	"C14": "Decided: every recorded epic reference is dominated by a live-epic check in the same lock section (or provably absent); epics are pruned only when childless. Not decided: hand-merged logs that carry dangling references.",
-	"C15": "Decided: whether the cycle guard can see the effective waits-for relation at all (its read-set) and whether epic moves / creation in an epic are guarded. the cycle search does not depend on mutable item state (a reopened task cannot close a cycle after the fact). Not decided: acyclicity of the effective relation after a hypothetical repair.",
+	"C15": "Decided: whether the cycle guard can see the effective waits-for relation at all (its read-set) and whether epic moves / creation in an epic are guarded; the cycle search does not depend on mutable item state (a reopened task cannot close a cycle after the fact). Not decided: acyclicity of the effective relation after a hypothetical repair.",
 	"C16": "Decided: under --json no text reaches stdout, at most one JSON value is written per path and no success return skips it; errors reach exitErr, stderr and a non-zero exit; replies carry the committed values; ids come from the collision-checked generator. Not decided: equality of every reply field with the next read for all states.",
 	"C17": "Decided: titles and bodies flow from the input to the recorded events through loads/stores/map entries only (TrimSpace only on the documented title paths); strict decode; title/body payload fields replayed and re-emitted by compaction. Not decided: encoding/json and bufio behaviour on all Unicode (trusted).",
 	"C18": "Decided: one chooser for the log file with the documented preference, used by every command including init; absolute start of the upward search and absolute repoDir; every caller of the upward search derives its start the same way; lock file recreated non-destructively; lock and log belong to the same directory. Not decided: nested-project layouts beyond the walk's structure.",
-	"C19": "Decided: renderers never byte-slice strings at non-rune offsets; the documented empty-state sentences are what is printed; tasks are only ever filed under live epics (so none is orphaned). rows are shortened only behind a display-width comparison and id-column padding never derives from a truncation budget. Not decided: the remaining width arithmetic, glyph placement, summary counts — numeric.",
+	"C19": "Decided: renderers never byte-slice strings at non-rune offsets; the documented empty-state sentences are what is printed; tasks are only ever filed under live epics (so none is orphaned); rows are shortened only behind a display-width comparison and id-column padding never derives from a truncation budget. Not decided: the remaining width arithmetic, glyph placement, summary counts — numeric.",
 	"C20": "Decided: the result emission is dominated by the task/summary/path validators, stores the cleaned path and the evidence of that same file; the path validator's accepting return is dominated by every confinement check incl. regular-file; repoDir absolute; all result fields replayed and re-emitted in agreeing order. Not decided: symlink resolution; ordering over all later histories as values.",
 }
